@@ -25,7 +25,7 @@ RULE = ("seeded random consistent battery/inverter data sets (1-5 groups, 1-3 ba
         "whose proportional share is below its min power or a multi-inverter group)")
 REQUIRED_BUCKETS = ["manager-level:request-object-changed-while-in-flight", "supply", "consume", "multi-inverter", "deficit-regime", "surplus>incl", "exponent-0",
                     "zero-headroom-group", "remainder-nonzero", "manager-level", "manager-level:adjust_power=False",
-                    "manager-level:api-faults"]
+                    "manager-level:api-faults", "manager-level:two-requests-for-disjoint-groups-in-flight"]
 REQUIRED_COUNTERS = ["contract_public", "contract_greedy", "contract_multi", "enforced_bounds_observed",
                      "manager_results_checked"]
 ASSUMPTIONS = ["float tolerance 1e-6*max(1,|power|)",
@@ -51,7 +51,14 @@ def gen(rng: Any, tier: str, i: int) -> Any:
             # slow API calls, and the owner of the (mutable) Request object changes it while the request is in flight: the
             # power reported as set is still the power commanded
             case["mgr_reuse_request"] = True
-        if rng.random() < 0.4:
+        if len(case["groups"]) >= 2 and rng.random() < 0.25:
+            # two requests for disjoint battery groups are in flight at the same time (slow API calls): the power each
+            # result reports as set is the power commanded for *that* request
+            cut = rng.randint(1, len(case["groups"]) - 1)
+            share = cut / len(case["groups"])
+            case["mgr_concurrent"] = {"cut": cut, "power1": round(case["power"] * share, 3),
+                                      "power2": round(case["power"] * (1 - share) * rng.choice([1.0, -0.5, 0.25]), 3)}
+        elif rng.random() < 0.4:
             # "the power reported as set is the power commanded" also when the API rejects, fails or is slow: per-call
             # outcomes and a request timeout with a fractional part (replies shortly before it are successes)
             n_inv = sum(len(g["invs"]) for g in case["groups"])
@@ -106,6 +113,25 @@ def check(case: dict[str, Any], rec: Any) -> None:
         _judge(dict(case, power=power, power_kind="enforced-band"), rec, band=True)
 
 
+def _manager_concurrent(case: dict[str, Any], rec: Any) -> None:
+    from ..vloop import LoopMonitor, run_virtual
+    from . import c15
+
+    mcase = dict(case, exp=1.0, kind="battery", latency=0.3, followup=False, adjust=True, timeout=5.0,
+                 bat_concurrent=case["mgr_concurrent"])
+    for k in ("lat_vec", "reuse_request", "unusable", "bystander"):
+        mcase.pop(k, None)
+    n = sum(len(g["invs"]) for g in case["groups"])
+    out: dict[str, Any] = {"rounds": []}
+    run_virtual(lambda: c15._battery_run(mcase, ["ok"] * n, out), monitor=LoopMonitor())  # noqa: SLF001
+    rec.bucket("manager-level")
+    rec.bucket("manager-level:two-requests-for-disjoint-groups-in-flight")
+    for rnd in out["rounds"]:
+        if rnd.get("result") is not None:
+            c15._judge(mcase, ["ok"] * n, rnd, rec, first=False)  # noqa: SLF001
+            rec.count("manager_results_checked")
+
+
 def manager_round(case: dict[str, Any]) -> dict[str, Any]:
     """One request through the real BatteryManager (real maps, data caches, algorithm with the manager's own
     exponent, result construction) against the fake API, every call succeeding; virtual time."""
@@ -130,6 +156,9 @@ def manager_round(case: dict[str, Any]) -> dict[str, Any]:
 def _manager_tier(case: dict[str, Any], rec: Any) -> None:
     from frequenz.sdk.microgrid._power_distributing.result import OutOfBounds, Success
 
+    if case.get("mgr_concurrent"):
+        _manager_concurrent(case, rec)
+        return
     rnd = manager_round(case)
     rec.bucket("manager-level")
     if case.get("mgr_reuse_request"):
